@@ -2,6 +2,7 @@ pub mod cache;
 pub mod chunker;
 pub mod crash;
 pub mod flight;
+pub mod mgrmt;
 pub mod recon;
 pub mod session;
 pub mod shard;
